@@ -17,7 +17,7 @@ import (
 
 const (
 	workCap     = 200_000 // instrumented statements per library call (a legitimate call needs < 2 000)
-	nCorrupt    = 15
+	nCorrupt    = 18
 	nViewFault  = 6
 	nMisc       = 6
 	nURLCorrupt = 6
@@ -476,9 +476,69 @@ func corruptCode(code string, kind, arg int) string {
 			}
 		}
 		return sb.String()
-	default: // trailing characters a lenient number parser skips: same prefix, longer
+	case 15: // trailing characters a lenient number parser skips: same prefix, longer
 		return code + []string{"_", "e0", ".0", "\x00"}[arg%4]
+	case 16: // "borrow"/"carry" edit: equal under naive positional parsing (sum of (c-'0')*10^k), different bytes
+		if len(b) < 2 {
+			return code + "0"
+		}
+		for k := 0; k < len(b)-1; k++ {
+			i := (arg + k) % (len(b) - 1)
+			if arg%2 == 0 && b[i] >= '1' && b[i] <= '9' && b[i+1] >= '0' && b[i+1] <= '9' {
+				b[i]--
+				b[i+1] += 10 // ':' .. 'C'
+				return string(b)
+			}
+			if arg%2 == 1 && b[i] >= '0' && b[i] <= '8' && b[i+1] >= '0' && b[i+1] <= '9' {
+				b[i]++
+				b[i+1] -= 10 // '&' .. '/'
+				return string(b)
+			}
+		}
+		b[0] = ':'
+		return string(b)
+	case 17: // same value modulo 2^32 (or 2^31), still the same number of digits
+		var v uint64
+		for _, c := range b {
+			if c < '0' || c > '9' {
+				return code + "1"
+			}
+			v = v*10 + uint64(c-'0')
+		}
+		add := uint64(1) << 32
+		if arg%2 == 1 {
+			add = 1 << 31
+		}
+		w := fmt.Sprintf("%0*d", len(b), v+add)
+		if len(w) != len(b) {
+			w = fmt.Sprintf("%0*d", len(b), (v+add)%pow10(len(b)))
+		}
+		return w
+	default: // upper/lower-case hex or octal spellings of the same number
+		var v uint64
+		for _, c := range b {
+			if c < '0' || c > '9' {
+				return "0x" + code
+			}
+			v = v*10 + uint64(c-'0')
+		}
+		w := fmt.Sprintf("%#x", v)
+		if arg%2 == 1 {
+			w = fmt.Sprintf("%#o", v)
+		}
+		for len(w) < len(b) {
+			w = " " + w
+		}
+		return w
 	}
+}
+
+func pow10(n int) uint64 {
+	p := uint64(1)
+	for i := 0; i < n && i < 19; i++ {
+		p *= 10
+	}
+	return p
 }
 
 func (s *sim) send(n Net, m message, deliver func(message)) {
